@@ -2,6 +2,7 @@
 package c03
 
 import (
+	"errors"
 	"fmt"
 	"net/http"
 	"net/http/httptest"
@@ -556,5 +557,104 @@ func TestC03_Quota(t *testing.T) {
 			t.Fatalf("uploads of up to %d units every %v against %v: %s", size, gap, rates[0], msg)
 		}
 		vstat.Case(fmt.Sprintf("quota|%v|%d|%v|%d|%d", rates, size, gap, n, first), len(events) > 1, []string{"volume-quota"}, map[string]any{"rate": fmt.Sprint(rates[0]), "upload": size, "gap": gap.String(), "uploads": n, "admitted": len(events)})
+	})
+}
+
+// TestC03_Reconfigure: two things administrators do at run time. (1) The rate set a limiter was
+// built with is changed in place (RateSet.Add overrides a period or adds one): from then on every
+// source, known or new, is bound by the new rates. (2) One option list (with a rate extractor
+// that sometimes has no plan for a source: empty set, documented to mean "the defaults") is
+// used to build a second limiter with other defaults: each limiter keeps its own defaults.
+func TestC03_Reconfigure(t *testing.T) {
+	rapid.Check(t, func(t *rapid.T) {
+		clock.Freeze(epoch)
+		defer clock.Unfreeze()
+		before := gen.Rate{Period: time.Second, Average: int64(rapid.IntRange(1, 20).Draw(t, "avg1")), Burst: int64(rapid.IntRange(1, 30).Draw(t, "burst1"))}
+		after := []gen.Rate{{Period: time.Second, Average: int64(rapid.IntRange(1, 20).Draw(t, "avg2")), Burst: int64(rapid.IntRange(1, 30).Draw(t, "burst2"))}}
+		if rapid.Bool().Draw(t, "addMinuteRate") {
+			after = append(after, gen.Rate{Period: time.Minute, Average: int64(rapid.IntRange(5, 60).Draw(t, "avgMin")), Burst: int64(rapid.IntRange(2, 40).Draw(t, "burstMin"))})
+		}
+		rs, err := gen.RateSet([]gen.Rate{before})
+		if err != nil {
+			t.Fatal(err)
+		}
+		served := 0
+		next := http.HandlerFunc(func(w http.ResponseWriter, r *http.Request) { served++ })
+		var opts []ratelimit.TokenLimiterOption
+		shared := rapid.Bool().Draw(t, "sharedOptionList")
+		if shared {
+			opts = append(opts, ratelimit.ExtractRates(ratelimit.RateExtractorFunc(func(r *http.Request) (*ratelimit.RateSet, error) {
+				if r.Header.Get("X-Plan") == "nil" {
+					return nil, errors.New("no plan")
+				}
+				return ratelimit.NewRateSet(), nil // no plan for this source: the limiter's own defaults apply
+			})))
+		}
+		tl, err := ratelimit.New(next, gen.HeaderExtractor, rs, opts...)
+		if err != nil {
+			t.Fatal(err)
+		}
+		if shared { // another limiter, generous defaults, same option list, built later
+			generous, _ := gen.RateSet([]gen.Rate{{Period: time.Second, Average: 1000, Burst: 1000}})
+			if _, err := ratelimit.New(next, gen.HeaderExtractor, generous, opts...); err != nil {
+				t.Fatal(err)
+			}
+		}
+		var evA, evB []adm // admitted before / after the change, per phase (source "known")
+		var evNew []adm    // a source first seen after the change
+		var now time.Duration
+		do := func(src string) bool {
+			req := httptest.NewRequest("GET", "http://x/", nil)
+			req.Header.Set("X-Src", src)
+			if rapid.IntRange(0, 3).Draw(t, "planLookupFails") == 0 {
+				req.Header.Set("X-Plan", "nil")
+			}
+			b := served
+			tl.ServeHTTP(httptest.NewRecorder(), req)
+			return served == b+1
+		}
+		gaps := []time.Duration{0, 0, 10 * time.Millisecond, 100 * time.Millisecond, 300 * time.Millisecond, time.Second}
+		for i := rapid.IntRange(1, 60).Draw(t, "before"); i > 0; i-- {
+			if do("known") {
+				evA = append(evA, adm{now, 1})
+			}
+			g := rapid.SampledFrom(gaps).Draw(t, "gap")
+			clock.Advance(g)
+			now += g
+		}
+		changed := rapid.IntRange(0, 4).Draw(t, "changeInPlace") != 0
+		if changed {
+			for _, r := range after {
+				if err := rs.Add(r.Period, r.Average, r.Burst); err != nil {
+					t.Fatal(err)
+				}
+			}
+		} else {
+			after = []gen.Rate{before}
+		}
+		for i := rapid.IntRange(1, 80).Draw(t, "after"); i > 0; i-- {
+			if do("known") {
+				evB = append(evB, adm{now, 1})
+			}
+			if rapid.IntRange(0, 2).Draw(t, "newcomer") == 0 && do("newcomer") {
+				evNew = append(evNew, adm{now, 1})
+			}
+			g := rapid.SampledFrom(gaps).Draw(t, "gap")
+			clock.Advance(g)
+			now += g
+		}
+		if ok, msg := checkBound(evA, []gen.Rate{before}); !ok {
+			t.Fatalf("before any change (rate %v, shared option list: %v): %s", before, shared, msg)
+		}
+		if !changed {
+			evB = append(evA, evB...)
+		}
+		if ok, msg := checkBound(evB, after); !ok {
+			t.Fatalf("a source known before the rate set was changed in place from %v to %v (changed: %v, shared option list: %v) is not bound by the rates in force: %s", before, after, changed, shared, msg)
+		}
+		if ok, msg := checkBound(evNew, after); !ok {
+			t.Fatalf("a source first seen after the change to %v is not bound by it: %s", after, msg)
+		}
+		vstat.Case(fmt.Sprintf("reconf|%v|%v|%v|%v|%d|%d|%d", before, after, changed, shared, len(evA), len(evB), len(evNew)), changed && len(evB) > 1, []string{"rate-set-changed-in-place"}, map[string]any{"before": fmt.Sprint(before), "after": fmt.Sprint(after), "shared_options": shared})
 	})
 }
